@@ -280,12 +280,25 @@ def add_lifts(rng, prog, n, kinds=('jit', 'remat', 'mapvars'), ctl=True):
         new.append(['ctl', x, kind, branches, ['add', gen_expr(rng, locals_, 1), ['const', [0] * n]]])
         locals_.append(x)
     prog['classes'][cid] = (new, ret)
+  if rng.random() < 0.35:
+    # a lifted (remat / map_variables) child with an explicit name that draws from an rng stream and is called twice
+    top = str(prog['top'])
+    body, ret = prog['classes'][top]
+    used = {s[2] for s in body if s[0] in ('param', 'perturb')} | {s[3] for s in body if s[0] in ('var', 'child') and s[3]} | {s[2] for s in body if s[0] == 'sow'}
+    free = [nm for nm in NAMES if nm not in used]
+    if free:
+      cid = max(int(k) for k in prog['classes']) + 1
+      prog['classes'][str(cid)] = ([['rng', rng.choice(STREAMS)], ['let', 1, ['in']], ['rng', rng.choice(STREAMS)]], ['loc', 1])
+      inst = max([0] + [s[1] for s in body if s[0] == 'child']) + 1
+      loc = max([0] + [s[1] for s in body if s[0] in ('param', 'var', 'perturb', 'let', 'call', 'ctl')]) + 1
+      body = body + [['child', inst, cid, rng.choice(free), rng.choice(['remat', 'mapvars'])], ['call', loc, inst, ['in']], ['call', loc + 1, inst, ['in']]]
+      prog['classes'][top] = (body, ret)
   return prog
 
 
 def gen_sel(rng):
   """the branch every cond / switch statement takes and the trip count of every while statement in one run"""
-  return {'cond': rng.randint(0, 1), 'switch': rng.randint(0, 2), 'while': rng.randint(1, 3)}
+  return {'cond': rng.randint(0, 1), 'switch': rng.randint(0, 2), 'while': rng.randint(1, 3), 'post': rng.choice([None, 1, 2, -1, 3])}
 
 
 def subst_in(e, z):
@@ -335,6 +348,8 @@ def plain_equivalent(prog, sel):
           new.append(['let', xv, subst_in(ret_b, z)])
       else:
         new.append(s)
+    if sel.get('post') is not None:
+      ret = ['mul', ret, ['const', [sel['post']]]]          # every module of the run carries the closure post(y) = y * k
     out['classes'][cid] = (new, ret)
   for tc, base in extra.items():
     out['classes'][tc] = None      # filled below (a transformed class has the body of its base class)
